@@ -136,3 +136,30 @@ def shared_smooth(rng, bits, gbits=64, smooth_bits=10, q_smooth=False):
       return p, q, g
   raise RuntimeError('shared_smooth: no primes found (bits=%d gbits=%d smooth_bits=%d)' %
                      (bits, gbits, smooth_bits))
+
+
+def high_low_equal_extreme(rng, bits, r, s):
+  """p, q agree on r low and s high bits; the middle bits of p are (almost) all 0 and those of
+  q (almost) all 1, so |p - q| is as large as the shared bits allow."""
+  pb = bits // 2
+  if pb - r - s < 8:
+    return None
+  top = (1 << (s - 1)) | rng.getrandbits(s - 1) if s > 1 else 1
+  low = rng.getrandbits(r) | 1
+  midbits = pb - r - s
+  base = (top << (pb - s)) | low
+  p = q = None
+  for j in range(4000):
+    c = base | (j << r)
+    if gmpy2.is_prime(c):
+      p = c
+      break
+  allones = ((1 << midbits) - 1) << r
+  for j in range(4000):
+    c = (base | allones) - (j << r)
+    if gmpy2.is_prime(c):
+      q = c
+      break
+  if p is None or q is None or p == q:
+    return None
+  return int(p), int(q)
